@@ -13,6 +13,36 @@ def _nontrivial(t):
     return ('expired' if hb else '') + ('dropped' if drop else '') or None
 
 
+def _vacuity(d, traces, verdict):
+    """The situations the clauses talk about must occur: actions expired by a checker pass, late genuine results for expired
+    actions, a lost accounting job, a checker pass under a configured batch size with expired actions that belong to no task."""
+    seen = dict(expired=0, late_result_after_expiry=0, dropped=0, batch_pass_with_orphans=0, fresh_kept=0)
+    for t in traces:
+        if 'error' in t:
+            continue
+        exp = set()
+        for s in t['steps']:
+            e = s['ev']
+            if e['kind'] == 'hb':
+                for w in e['writes']:
+                    if w['kind'] == 'ax' and w['to'] == 'ERROR':
+                        exp.add(w['sid'])
+                if any(a['state'] == 'RUNNING' for a in s['obs']['ax']):
+                    seen['fresh_kept'] += 1
+                c = t['meta'].get('c20') or {}
+                if c.get('batch') and c.get('broken') and any(w['kind'] == 'ax' and w['to'] == 'ERROR' for w in e['writes']):
+                    seen['batch_pass_with_orphans'] += 1
+            if e['kind'] == 'msg' and e['what'] == 'on_action_complete' and exp and any(a['sid'] in exp for a in s['obs']['ax']) and not e['writes']:
+                seen['late_result_after_expiry'] += 1
+            if e['kind'] == 'dropjob' and e.get('n'):
+                seen['dropped'] += 1
+        seen['expired'] += len(exp)
+    missing = [k for k, v in seen.items() if not v]
+    if missing:
+        raise common.MachineryError('C20 is vacuous: never observed %s (observed: %s)' % (missing, seen))
+    return {'situations_observed': seen}
+
+
 def run(tier):
     rnd = random.Random(common.seed() + 20)
     n = 160 if tier == 'quick' else 3000
@@ -24,6 +54,10 @@ def run(tier):
         nl = rnd.randint(0, min(1, len(names) - ns))
         j['c20'] = dict(silent=names[:ns], slow=names[ns:ns + nl], first=rnd.choice([2, 4]), missed=rnd.choice([1, 2]),
                         interval=2, integrity=3, ticks=rnd.randint(3, 8), drop=(k % 3 == 0))
+        # a configured batch size, and expired actions that belong to no task (the checker can only skip them) already in the table
+        if k % 4 == 1:
+            j['c20']['batch'] = rnd.choice([1, 2])
+            j['c20']['broken'] = rnd.choice([0, 1, 2, 3])
         j['max_steps'] = 700
     # fixed histories: the first integrity pass (10 s after the start) finds no RUNNING task - the only task is DELAYED by
     # wait-before, or a join is WAITING - and only afterwards a with-items task loses its accounting job: the periodic check
@@ -43,9 +77,9 @@ def run(tier):
                            'generated programs in which a subset of the actions goes silent (request never served, no heartbeat), another '
                            'subset is slow but alive (heartbeats sent), the clock advances by check intervals with a checker pass after each, the '
                            'genuine results are released late, and in a third of the runs a with-items accounting job is lost (stuck task, to '
-                           'be recovered by the integrity check); fixed histories in which the first integrity pass finds nothing RUNNING and a task gets '
+                           'be recovered by the integrity check); a quarter of the runs with a configured checker batch size of 1-2 and 0-3 expired actions without a task already in the table; fixed histories in which the first integrity pass finds nothing RUNNING and a task gets '
                            'stuck only later; non-trivial = distinct runs in which an action was expired or a job was lost',
-                           _nontrivial)
+                           _nontrivial, post=_vacuity)
 
 
 def replay(path):
